@@ -595,3 +595,187 @@ fn round(
     let arg = f64::try_from(args.first().unwrap())?;
     Ok(model::Value::Number(arg.round()))
 }
+
+// -----------------------------------------------------------------------------------------------
+
+/// Verification hooks (feature `verif`, off by default): public wrappers around private functions.
+#[cfg(feature = "verif")]
+pub mod verif_hooks {
+    use super::*;
+
+    pub fn last(
+        args: Vec<model::Value>,
+        node: dom::XmlNode,
+        context: &mut model::Context,
+    ) -> error::Result<model::Value> {
+        super::last(args, node, context)
+    }
+
+    pub fn position(
+        args: Vec<model::Value>,
+        node: dom::XmlNode,
+        context: &mut model::Context,
+    ) -> error::Result<model::Value> {
+        super::position(args, node, context)
+    }
+
+    pub fn count(
+        args: Vec<model::Value>,
+        node: dom::XmlNode,
+        context: &mut model::Context,
+    ) -> error::Result<model::Value> {
+        super::count(args, node, context)
+    }
+
+    pub fn string(
+        args: Vec<model::Value>,
+        node: dom::XmlNode,
+        context: &mut model::Context,
+    ) -> error::Result<model::Value> {
+        super::string(args, node, context)
+    }
+
+    pub fn concat(
+        args: Vec<model::Value>,
+        node: dom::XmlNode,
+        context: &mut model::Context,
+    ) -> error::Result<model::Value> {
+        super::concat(args, node, context)
+    }
+
+    pub fn starts_with(
+        args: Vec<model::Value>,
+        node: dom::XmlNode,
+        context: &mut model::Context,
+    ) -> error::Result<model::Value> {
+        super::starts_with(args, node, context)
+    }
+
+    pub fn contains(
+        args: Vec<model::Value>,
+        node: dom::XmlNode,
+        context: &mut model::Context,
+    ) -> error::Result<model::Value> {
+        super::contains(args, node, context)
+    }
+
+    pub fn substring_before(
+        args: Vec<model::Value>,
+        node: dom::XmlNode,
+        context: &mut model::Context,
+    ) -> error::Result<model::Value> {
+        super::substring_before(args, node, context)
+    }
+
+    pub fn substring_after(
+        args: Vec<model::Value>,
+        node: dom::XmlNode,
+        context: &mut model::Context,
+    ) -> error::Result<model::Value> {
+        super::substring_after(args, node, context)
+    }
+
+    pub fn substring(
+        args: Vec<model::Value>,
+        node: dom::XmlNode,
+        context: &mut model::Context,
+    ) -> error::Result<model::Value> {
+        super::substring(args, node, context)
+    }
+
+    pub fn string_length(
+        args: Vec<model::Value>,
+        node: dom::XmlNode,
+        context: &mut model::Context,
+    ) -> error::Result<model::Value> {
+        super::string_length(args, node, context)
+    }
+
+    pub fn normalize_space(
+        args: Vec<model::Value>,
+        node: dom::XmlNode,
+        context: &mut model::Context,
+    ) -> error::Result<model::Value> {
+        super::normalize_space(args, node, context)
+    }
+
+    pub fn translate(
+        args: Vec<model::Value>,
+        node: dom::XmlNode,
+        context: &mut model::Context,
+    ) -> error::Result<model::Value> {
+        super::translate(args, node, context)
+    }
+
+    pub fn boolean(
+        args: Vec<model::Value>,
+        node: dom::XmlNode,
+        context: &mut model::Context,
+    ) -> error::Result<model::Value> {
+        super::boolean(args, node, context)
+    }
+
+    pub fn not(
+        args: Vec<model::Value>,
+        node: dom::XmlNode,
+        context: &mut model::Context,
+    ) -> error::Result<model::Value> {
+        super::not(args, node, context)
+    }
+
+    pub fn ftrue(
+        args: Vec<model::Value>,
+        node: dom::XmlNode,
+        context: &mut model::Context,
+    ) -> error::Result<model::Value> {
+        super::ftrue(args, node, context)
+    }
+
+    pub fn ffalse(
+        args: Vec<model::Value>,
+        node: dom::XmlNode,
+        context: &mut model::Context,
+    ) -> error::Result<model::Value> {
+        super::ffalse(args, node, context)
+    }
+
+    pub fn number(
+        args: Vec<model::Value>,
+        node: dom::XmlNode,
+        context: &mut model::Context,
+    ) -> error::Result<model::Value> {
+        super::number(args, node, context)
+    }
+
+    pub fn sum(
+        args: Vec<model::Value>,
+        node: dom::XmlNode,
+        context: &mut model::Context,
+    ) -> error::Result<model::Value> {
+        super::sum(args, node, context)
+    }
+
+    pub fn floor(
+        args: Vec<model::Value>,
+        node: dom::XmlNode,
+        context: &mut model::Context,
+    ) -> error::Result<model::Value> {
+        super::floor(args, node, context)
+    }
+
+    pub fn ceiling(
+        args: Vec<model::Value>,
+        node: dom::XmlNode,
+        context: &mut model::Context,
+    ) -> error::Result<model::Value> {
+        super::ceiling(args, node, context)
+    }
+
+    pub fn round(
+        args: Vec<model::Value>,
+        node: dom::XmlNode,
+        context: &mut model::Context,
+    ) -> error::Result<model::Value> {
+        super::round(args, node, context)
+    }
+}
